@@ -537,6 +537,9 @@ def run_check(prop, tier, seed, replay=None):
     if replay:
         return _run_replay(mod, prop, tier, seed, binaries, replay)
 
+    # replays of earlier runs of this property are stale by definition
+    shutil.rmtree(os.path.join(REPLAYS, prop), ignore_errors=True)
+
     budget = spec["budget_s"][tier]
     if "VERIF_BUDGET_S" in os.environ:
         budget = float(os.environ["VERIF_BUDGET_S"])
